@@ -653,8 +653,10 @@ def cost_conversion(prog):
     best = (None, {})
     below = prog.reach_fns(prog.by_path.get("classic::crypto_pwhash::crypto_pwhash", []))
     for g in prog.fns:
-        if g.kind == "closure" or g.argc != 2 or g.locals[1].get("t") != "u64" or g.locals[2].get("t") != "usize":
-            continue
+        if g.kind == "closure" or g.argc != 2 or sorted(g.locals[i_].get("t") for i_ in (1, 2)) != ["u64", "usize"]:
+            continue        # (opslimit: u64, memlimit: usize), in either order: the types tell them apart
+        p_ops = 1 if g.locals[1].get("t") == "u64" else 2
+        p_mem = 3 - p_ops
         if g.key not in below:
             continue        # the conversion is the one the public crypto_pwhash goes through
         e = expr_of_local(g, 0)
@@ -670,9 +672,9 @@ def cost_conversion(prog):
         roles = {}
         for nm, comp in zip(names, e.c):
             ls = expr_leaf_locals(comp) & {1, 2}
-            if ls == {1}:
+            if ls == {p_ops}:
                 roles[nm] = "t"
-            elif ls == {2}:
+            elif ls == {p_mem}:
                 roles[nm] = "m"
         if sorted(roles.values()) == ["m", "t"]:
             best = (g, roles)
@@ -769,3 +771,75 @@ def read_after_wipe(rep, prog, prefixes, rule="WIPE-ORDER", tag=""):
                        f.local_name(root), z.loc(), ("read by %s at %s" % (bad[0].name, bad[0].loc())) if bad else "returned"),
                    loc=bad[0].loc() if bad else z.loc())
     return n
+
+
+def argon2_arg_index(prog):
+    """{role: argument index} of the crate-internal `argon2::argon2_hash`, derived - not assumed - from
+    the one call the public, positional `crypto_pwhash(output, password, salt, opslimit, memlimit, alg)`
+    makes: output/password/salt are the arguments rooted in public parameters 1/2/3, t and m the two
+    components of the cost conversion, the lane count is the constant 1, the type is the argument
+    computed from the algorithm parameter.  Falls back to the declared order
+    (t, m, lanes, password, salt, secret, ad, output, type) where a role cannot be established."""
+    if getattr(prog, "_a2_idx", None) is not None:
+        return prog._a2_idx
+    from ..expr import call_arg_exprs, evaluate
+    out = {"t": 0, "m": 1, "lanes": 2, "password": 3, "salt": 4, "output": 7, "type": 8}
+    for f in prog.by_path.get("classic::crypto_pwhash::crypto_pwhash", []):
+        cs = [c for c in f.calls() if is_argon2_call(prog, c)]
+        if len(cs) != 1:
+            continue
+        c = cs[0]
+        ax = call_arg_exprs(c)
+        found = {}
+        for i, a in enumerate(c.args):
+            ls = list(operand_locals(a))
+            comp = conv_component(prog, ax[i])[0]
+            if comp in ("t", "m"):
+                found[comp] = i
+                continue
+            v = evaluate(ax[i], {})
+            if v == 1 and not isinstance(v, bool):
+                found["lanes"] = i
+                continue
+            if not ls:
+                continue
+            root = view_info(f, ls[0])[0]
+            ty = f.locals[ls[0]]["t"]
+            if root == 1:
+                found["output"] = i
+            elif root == 2:
+                found["password"] = i
+            elif root == 3:
+                found["salt"] = i
+            elif "[u8]" not in ty and 6 in f.backward_slice(ls):
+                found["type"] = i
+        out.update(found)
+    prog._a2_idx = out
+    return out
+
+
+def argon2_entry(prog):
+    """The crate-internal Argon2 entry point, by role: the crate-local, non-public function the public
+    `crypto_pwhash(output, ..)` hands its output buffer (parameter 1) to.  (On the pinned tree:
+    `argon2::argon2_hash`; its name, module and parameter order are free.)"""
+    if getattr(prog, "_a2_entry", 0) != 0:
+        return prog._a2_entry
+    found = None
+    for f in prog.by_path.get("classic::crypto_pwhash::crypto_pwhash", []):
+        for c in f.calls():
+            if not c.is_local or f.blocks[c.bb]["cleanup"]:
+                continue
+            ts = [t for t in prog.callee_fns(c) if t.kind != "closure" and t.vis != "pub"]
+            if len(ts) != 1 or len(c.args) < 6:
+                continue
+            for a in c.args:
+                ls = list(operand_locals(a))
+                if ls and f.locals[ls[0]]["t"].startswith("&mut") and view_info(f, ls[0])[0] == 1:
+                    found = ts[0]
+    prog._a2_entry = found
+    return found
+
+
+def is_argon2_call(prog, c):
+    e = argon2_entry(prog)
+    return e is not None and any(t.key == e.key for t in prog.callee_fns(c))
